@@ -584,6 +584,17 @@ func runHostile(rc *core.RunCtx) {
 	if mode != 2 {
 		checkDeliveries(rc, w, flatten(legit), "C16", false, "beside-hostile-stream")
 	}
+	// the node's own infrastructure survived too: its event stream still serves
+	// its subscribers (an event-stream actor that crashed on a hostile dead
+	// letter restarts without them)
+	w.nodes[2].E.Send(actor.NewPID(addrOf(2), "ghost/evprobe"), mkPayload(0, "evprobe"))
+	simrt.WaitQuiet(10 * time.Second)
+	if w.nodes[2].count(func(e any) bool {
+		d, ok := e.(actor.DeadLetterEvent)
+		return ok && d.Target != nil && d.Target.ID == "ghost/evprobe"
+	}) != 1 {
+		rc.Violate("event-stream-lost-its-subscribers", "after the hostile input node 2's event stream no longer delivers events to its subscriber (a dead letter produced on the node itself was not seen)")
+	}
 	// a new legitimate connection still works afterwards
 	simnet.Net().Corrupt = nil
 	if mode == 2 {
